@@ -1,12 +1,12 @@
 CONSTANTS
-  MaxUI = 2
+  MaxUI = 1
   Kinds = {"finite", "endless"}
   ShowBumpsVersion = TRUE
   TemplateHasQ = TRUE
   H = 2
   LensKind = "mixed"
-  WithScroll = FALSE
+  WithScroll = TRUE
   DelayedSetsVersion <- TreeDelayedSetsVersion
 SPECIFICATION Spec
-INVARIANTS TypeOK OneAlive ConvergenceLostCancel
+INVARIANTS TypeOK OneAlive ShownIsStarted Convergence ShowFixed DelayedFixed RowsOfOneRequest ExitClean
 CHECK_DEADLOCK FALSE
